@@ -221,6 +221,7 @@ static void on_tx(int node, coap_session_t *s, const sim_dgram_t *dg, sim_verdic
   switch (vc) {
   case 'd': v->copies = 0; break;
   case '2': v->copies = 2; v->delay[0] = 0; v->delay[1] = 5; break;
+  case 'b': v->copies = 2; v->delay[0] = 0; v->delay[1] = 0; break;       /* back to back: the copy is the very next datagram the receiver sees */
   case 'l': v->copies = 1; v->delay[0] = 3500; break;
   case 's': v->copies = 1; v->delay[0] = 40; break;
   default: break;
